@@ -1,6 +1,6 @@
 #!/bin/bash
 # tools/check_seeds.sh [jobs]: for every /verif/seeded/<name>: scratch worktree of /repo HEAD + patch.diff, run the property's quick
-# check against it (MJW_REPO), expect exit 1 with a VIOLATION line.  Prints one line per seed; worktrees are removed.
+# check against it (MJW_REPO), expect exit 1 with a VIOLATION line (directories holding a MISSED marker are documented misses: scope gaps stated in DESIGN 11.5).  Prints one line per seed; worktrees are removed.
 cd /verif
 jobs=${1:-4}
 run_one() {
@@ -8,7 +8,7 @@ run_one() {
   git -C /repo worktree add -q --detach $wt HEAD 2>/dev/null || { echo "$name worktree-failed"; return; }
   if git -C $wt apply /verif/seeded/$name/patch.diff 2>/dev/null; then
     t0=$(date +%s); MJW_REPO=$wt ./vcheck $pid > /tmp/seedrun_$name.log 2>&1; rc=$?; t1=$(date +%s)
-    echo "$name rc=$rc $((t1-t0))s $(grep -c '^VIOLATION' /tmp/seedrun_$name.log) violations"
+    echo "$name rc=$rc $((t1-t0))s $(grep -c '^VIOLATION' /tmp/seedrun_$name.log) violations"$( [ -e /verif/seeded/$name/MISSED ] && echo " (documented miss: expected rc=0, see meta.json)")
   else
     echo "$name patch-does-not-apply"
   fi
